@@ -49,6 +49,26 @@ def strip_comments(src):
     return "".join(out)
 
 
+def coqchk(pid):
+    """Re-check the compiled property file and everything it depends on with the independent
+    checker; returns (ok, summary, seconds)."""
+    t0 = time.time()
+    try:
+        p = run(["coqchk", "-silent", "-o", "-Q", ".", "JS", "JS.Props." + pid], cwd=COQ, timeout=5400)
+    except Exception as e:           # timeout
+        return False, "coqchk did not finish: %s" % e, time.time() - t0
+    out = p.stdout
+    m = re.search(r"\* Axioms:(.*?)\n\s*\n", out, re.S)
+    axioms = " ".join(m.group(1).split()) if m else "?"
+    bad = []
+    for key in ("type-in-type", "unsafe (co)fixpoints", "positivity is assumed"):
+        mm = re.search(re.escape(key) + r":(.*?)\n\s*\n", out, re.S)
+        if mm and "<none>" not in mm.group(1):
+            bad.append(key + ": " + " ".join(mm.group(1).split()))
+    ok = p.returncode == 0 and axioms == "<none>" and not bad
+    return ok, "axioms: %s%s" % (axioms, ("; " + "; ".join(bad)) if bad else ""), time.time() - t0
+
+
 def prove(pid):
     """Build Props/<pid>.vo (full .vo) and audit the cone. Returns a dict."""
     target = "Props/%s.vo" % pid
@@ -115,6 +135,15 @@ def main():
         print("usage: check <ID> <quick|thorough> [--replay file]")
         sys.exit(2)
     pid, tier = sys.argv[1], sys.argv[2]
+    replay = None
+    if "--replay" in sys.argv:
+        # a replay re-runs the (deterministic, seeded) check and says which of the recorded
+        # violations reproduce on the current tree
+        try:
+            replay = json.load(open(sys.argv[sys.argv.index("--replay") + 1]))
+        except (OSError, ValueError, IndexError):
+            print("cannot read the replay file")
+            sys.exit(2)
     os.environ["VERIF_TIER"] = tier
     t0 = time.time()
     lock()
@@ -129,6 +158,11 @@ def main():
     try:
         regenerate()
         proof = prove(pid)
+        if tier == "thorough" and proof["ok"]:
+            ck_ok, ck_sum, ck_s = coqchk(pid)
+            proof["coqchk"] = {"ok": ck_ok, "summary": ck_sum, "seconds": round(ck_s, 1)}
+            if not ck_ok:
+                out.broken.append({"what": "coqchk does not accept the compiled property file: " + ck_sum, "detail": ck_sum})
         if proof["forbidden"]:
             out.broken.append({"what": "forbidden construct in the development", "detail": proof["forbidden"]})
         if not proof["ok"]:
@@ -171,6 +205,13 @@ def main():
             print("KNOWN-FINDING: property=%s %s" % (pid, f["what"]))
         else:
             out.broken.append({"what": "known finding %s no longer reproduces (model and code have drifted)" % f["id"], "detail": f})
+    if replay is not None:
+        now = {v["what"] for v in out.violations} | {b["what"] for b in out.broken}
+        old = [v["what"] for v in replay.get("violations", [])] + [b["what"] for b in replay.get("broken", [])]
+        hit = [w for w in old if w in now]
+        print("REPLAY: %d of %d recorded violations reproduce on the current tree" % (len(hit), len(old)))
+        for w in hit[:10]:
+            print("REPLAY reproduced: " + w[:200])
     level = "proof"
     cov = dict(out.coverage)
     if proof:
@@ -184,6 +225,8 @@ def main():
             "cone_files": proof["files"],
             "theorems": [n for f, n in proof["obligations"] if f.startswith("Props/")],
         })
+        if proof.get("coqchk"):
+            cov["coqchk"] = proof["coqchk"]
     else:
         cov.update({"obligations": 1, "discharged": 0, "checker_cmd": "go2coq failed before coqc", "trusted_base": TRUSTED_BASE})
     nviol = len(unlisted) + (1 if (out.broken and not unlisted) else 0)
